@@ -384,3 +384,46 @@ Definition parse_period (s : string) : res period :=
   else if is_instant_str s then parse_simple s
   else if is_period_str s then period_of_components (split ":" s)
   else Err EPeriod.
+
+(** * helpers.instant / helpers.period on the other argument types (singledispatch)
+
+    [IDate] stands for datetime.date, datetime.datetime, pendulum Date and DateTime (with
+    or without time zone): only the calendar fields year, month, day are read.  [ISeq] is a
+    tuple or list of ints ([t.SeqInt]: non-empty). *)
+Inductive input :=
+  | IStr (s : string)
+  | IInt (n : Z)
+  | IDate (c : date)
+  | IInstant (c : date)
+  | IPeriod (p : period)
+  | ISeq (l : list Z)
+  | INone.
+
+(* Instant((list(value) + [1] * 3)[:3]) *)
+Definition instant_of_seq (l : list Z) : res date :=
+  match (l ++ [1; 1; 1])%list with
+  | y :: m :: d :: _ => match l with [] => Err EPeriod | _ => Ok (y, m, d) end
+  | _ => Err EPeriod
+  end.
+
+Definition instant_of (v : input) : res date :=
+  match v with
+  | IStr s => parse_instant s
+  | IInt n => Ok (n, 1, 1)
+  | IDate c => Ok c
+  | IInstant c => Ok c
+  | IPeriod p => Ok (p_start p)
+  | ISeq l => instant_of_seq l
+  | INone => Err EPeriod
+  end.
+
+Definition period_of (v : input) : res period :=
+  match v with
+  | IStr s => parse_period s
+  | IInt n => Ok (Year, (n, 1, 1), 1)
+  | IDate c => Ok (Day, c, 1)
+  | IInstant c => Ok (Day, c, 1)
+  | IPeriod p => Ok p
+  | ISeq _ => Err EPeriod
+  | INone => Err EPeriod
+  end.
